@@ -582,13 +582,36 @@ def make_shim(pi=False, **over):
     return ShimNP(**d)
 
 
+def _turns(x):
+    """x / (2 PI) with the PI factor cancelled syntactically when every monomial of x carries one"""
+    d = z3.simplify(x, som=True)
+    mons = d.children() if z3.is_app(d) and d.decl().kind() == z3.Z3_OP_ADD else [d]
+    out = []
+    for m in mons:
+        fac = m.children() if z3.is_app(m) and m.decl().kind() == z3.Z3_OP_MUL else [m]
+        idx = [k for k, f in enumerate(fac) if f.eq(sx.PI)]
+        if not idx:
+            if z3.is_rational_value(m) and m.as_fraction() == 0:
+                continue
+            return x / (2 * sx.PI)
+        rest = [f for k, f in enumerate(fac) if k != idx[0]]
+        t = z3.RealVal(1)
+        for f in rest:
+            t = t * f
+        out.append(t)
+    tot = z3.RealVal(0)
+    for t in out:
+        tot = tot + t
+    return z3.simplify(tot / 2, som=True)
+
+
 def complex_exponential(x):
     """Model of abtem.core.complex.complex_exponential: exp(i x) as a unit phasor, turns = x/(2 PI)."""
     x = _oarr(x)
     out = np.empty(x.shape, dtype=object)
     for i in np.ndindex(x.shape):
-        out[i] = sx.CExp(_real(_z(x[i])) / (2 * sx.PI))
-    return out if out.shape else out[()]
+        out[i] = sx.CExp(_turns(_real(_z(x[i]))))
+    return (out.view(SymArr) if out.shape else out[()])
 
 
 def exp_dispatch(x):
